@@ -9,8 +9,12 @@ the core and, over ℝ, on `angleR = atan2(√s², c)` itself, including the tri
 (`angle_triangle`, through unit quaternions).
 exp/log: scipy's `so3_exp`/`so3_log` are tied by the Rodrigues certificate; the `_partial`
 theorems are the polynomial content of exp∘log = id and log∘exp = id (see each docstring).
+Over ℝ, `exp_log_real`, `log_exp_real`, `log_exp_real_at_pi` close the gap at rotation angle exactly
+π (`logRFull`, `piAxis` of `Lemmas/LieAtPi.lean`): exp and log are mutually inverse over the whole
+group.
 -/
 import EvoModel.Lemmas.Lie
+import EvoModel.Lemmas.LieAtPi
 import EvoModel.Lemmas.QuatAngle
 namespace Evo.C09
 open Evo Evo.Lie
@@ -541,6 +545,133 @@ theorem exp_log_real_partial (r : M3 ℝ) (h : IsRot r) (hπ : r.angleCore.1 ≠
       rw [hsq]
     rw [ha, hb]
     exact exp_log_partial r h (by rw [← hc]; linarith)
+
+/-! ### exp and log on the whole group, including rotation angle exactly π
+
+`logRFull R` (`Lemmas/LieAtPi.lean`) is `logR R` for `c ≠ −1` and `π·piAxis R` for `c = −1`, where
+`piAxis R` is the largest column of `P = (R + I)/2 = n nᵀ` divided by the root of its diagonal entry
+(what scipy's `as_rotvec` does through the quaternion of largest component). -/
+
+/-- rotation by π about x: `diag(1, −1, −1)` (non-vacuity witness for the angle-π theorems) -/
+def rxPi : M3 ℝ := ⟨1, 0, 0, 0, -1, 0, 0, 0, -1⟩
+/-- rotation by π about `(1, 1, 0)/√2`: swaps x and y, negates z (a tie on the diagonal of `P`) -/
+def rSwapPi : M3 ℝ := ⟨0, 1, 0, 1, 0, 0, 0, 0, -1⟩
+
+theorem rxPi_isRot : IsRot rxPi := by
+  constructor
+  · unfold IsOrtho; ext <;> simp [rxPi, M3.mul, M3.transpose, M3.one]
+  · simp [rxPi, M3.det]
+
+theorem rxPi_core : rxPi.angleCore.1 = -1 := by
+  rw [M3.angleCore_fst]; simp only [rxPi, M3.trace]; norm_num
+
+theorem rSwapPi_isRot : IsRot rSwapPi := by
+  constructor
+  · unfold IsOrtho; ext <;> simp [rSwapPi, M3.mul, M3.transpose, M3.one]
+  · simp [rSwapPi, M3.det]
+
+theorem rSwapPi_core : rSwapPi.angleCore.1 = -1 := by
+  rw [M3.angleCore_fst]; simp only [rSwapPi, M3.trace]; norm_num
+
+/-- **exp ∘ log = id on all of SO(3)**, rotation angle π included.  For evo: `so3_exp(so3_log(R)) = R`
+for every proper rotation `R`; `so3_exp`/`so3_log` are mutually inverse over the whole group incl.
+angle π (together with `log_exp_real`, `log_exp_real_at_pi`). -/
+theorem exp_log_real (r : M3 ℝ) (h : IsRot r) : expR (logRFull r) = r := by
+  unfold logRFull
+  split_ifs with hc
+  · exact expR_of_outer_eq_piP r _ (piAxis_normSq h hc) (piAxis_outer h hc)
+  · exact exp_log_real_partial r h hc
+
+-- non-vacuity: the π-branch is reached (`diag(1,−1,−1)` and the x↔y swap are rotations with `c = −1`),
+-- and there the logarithm is the expected vector `(π, 0, 0)`
+example : IsRot rxPi ∧ rxPi.angleCore.1 = -1 := ⟨rxPi_isRot, rxPi_core⟩
+example : IsRot rSwapPi ∧ rSwapPi.angleCore.1 = -1 := ⟨rSwapPi_isRot, rSwapPi_core⟩
+example : logRFull rxPi = ⟨π, 0, 0⟩ := by
+  have hp : rxPi.piP = ⟨1, 0, 0, 0, 0, 0, 0, 0, 0⟩ := by
+    ext <;> norm_num [rxPi, M3.piP, M3.smul, M3.add, M3.one]
+  unfold logRFull piAxis piAxisOf
+  rw [if_pos rxPi_core, hp]
+  ext <;> simp [V3.smul, M3.col0]
+example : expR (logRFull rxPi) = rxPi := exp_log_real rxPi rxPi_isRot
+example : expR (⟨π, 0, 0⟩ : V3 ℝ) = rxPi := by
+  have := expR_pi_axis ⟨1, 0, 0⟩ (by simp [V3.normSq, V3.dot])
+  rw [show V3.smul π (⟨1, 0, 0⟩ : V3 ℝ) = ⟨π, 0, 0⟩ by ext <;> simp [V3.smul]] at this
+  rw [this]; ext <;> norm_num [rxPi, M3.smul, M3.add, M3.outer, M3.one]
+
+/-- at angle π **every** unit `n` with `n nᵀ = (R + I)/2` gives a logarithm `π·n` of `R` (there are
+exactly two, `±piAxis R`): evo's `so3_exp` maps whichever of the two `so3_log` returns back to `R`.
+(`2 n nᵀ − I = R` is an identity; the hypotheses `IsRot`, `c = −1` only say when such an `n` exists.) -/
+theorem exp_of_any_pi_log (r : M3 ℝ) (_h : IsRot r) (_hc : r.angleCore.1 = -1) (n : V3 ℝ)
+    (hn : n.normSq = 1) (hP : M3.outer n n = r.piP) : expR (V3.smul π n) = r :=
+  expR_of_outer_eq_piP r n hn hP
+
+-- non-vacuity: both `(1,0,0)` and `(−1,0,0)` satisfy the hypotheses for `diag(1,−1,−1)`
+example : (⟨-1, 0, 0⟩ : V3 ℝ).normSq = 1 ∧ M3.outer (⟨-1, 0, 0⟩ : V3 ℝ) ⟨-1, 0, 0⟩ = rxPi.piP := by
+  constructor
+  · simp [V3.normSq, V3.dot]
+  · ext <;> norm_num [rxPi, M3.piP, M3.smul, M3.add, M3.one, M3.outer]
+example : (⟨1, 0, 0⟩ : V3 ℝ).normSq = 1 ∧ M3.outer (⟨1, 0, 0⟩ : V3 ℝ) ⟨1, 0, 0⟩ = rxPi.piP := by
+  constructor
+  · simp [V3.normSq, V3.dot]
+  · ext <;> norm_num [rxPi, M3.piP, M3.smul, M3.add, M3.one, M3.outer]
+
+/-- log ∘ exp on the sphere `‖v‖ = π`, unit-axis form -/
+theorem log_exp_pi_unit (u : V3 ℝ) (hu : u.normSq = 1) :
+    logRFull (expR (V3.smul π u)) = V3.smul π u ∨
+    logRFull (expR (V3.smul π u)) = V3.smul (-1) (V3.smul π u) := by
+  have hR := expR_pi_axis u hu
+  have hrot : IsRot (expR (V3.smul π u)) := exp_is_rotation_real _
+  have hc : (expR (V3.smul π u)).angleCore.1 = -1 := by
+    rw [expR_angleCore_fst, V3.normSq_smul, hu, mul_one, Real.sqrt_sq Real.pi_pos.le, Real.cos_pi]
+  have hout : M3.outer (piAxis (expR (V3.smul π u))) (piAxis (expR (V3.smul π u))) = M3.outer u u := by
+    rw [piAxis_outer hrot hc, hR, M3.piP_two_outer_sub_one]
+  unfold logRFull
+  rw [if_pos hc]
+  rcases eq_or_neg_of_outer_eq hu hout with e | e
+  · left; rw [e]
+  · right; rw [e]; ext <;> simp only [V3.smul] <;> ring
+
+/-- **log ∘ exp at rotation angle exactly π** (`‖v‖ = π`): the logarithm returns the vector or its
+negative — `v` and `−v` are both logarithms of the same rotation (`exp v = exp(−v)` there), so
+nothing better can hold.  For evo: `so3_log(so3_exp(v)) = ±v` when `‖v‖ = π`. -/
+theorem log_exp_real_at_pi (v : V3 ℝ) (h : v.normSq = π ^ 2) :
+    logRFull (expR v) = v ∨ logRFull (expR v) = V3.smul (-1) v := by
+  have hπ : π ≠ 0 := Real.pi_pos.ne'
+  have hv : v = V3.smul π (V3.smul (1 / π) v) := by
+    ext <;> simp only [V3.smul] <;> field_simp
+  have hu : (V3.smul (1 / π) v).normSq = 1 := by
+    rw [V3.normSq_smul, h]; field_simp
+  have := log_exp_pi_unit _ hu
+  rw [← hv] at this
+  exact this
+
+-- non-vacuity: `(π, 0, 0)` lies on the sphere
+example : (⟨π, 0, 0⟩ : V3 ℝ).normSq = π ^ 2 := by simp [V3.normSq, V3.dot]; ring
+
+/-- **log ∘ exp = id on the whole open ball** `‖v‖ < π`, `v = 0` included.  For evo:
+`so3_log(so3_exp(v)) = v`; with `exp_log_real` and `log_exp_real_at_pi`, `so3_exp`/`so3_log` are
+mutually inverse over the whole group incl. angle π (where the rotation vector is unique up to
+sign). -/
+theorem log_exp_real (v : V3 ℝ) (hpi : v.normSq < π ^ 2) : logRFull (expR v) = v := by
+  have hθpi : √v.normSq < π := by
+    calc √v.normSq < √(π ^ 2) := Real.sqrt_lt_sqrt (V3.normSq_nonneg v) hpi
+      _ = π := Real.sqrt_sq Real.pi_pos.le
+  have hc : (expR v).angleCore.1 ≠ -1 := by
+    rw [expR_angleCore_fst]
+    have := Real.cos_lt_cos_of_nonneg_of_le_pi (Real.sqrt_nonneg v.normSq) le_rfl hθpi
+    rw [Real.cos_pi] at this
+    exact this.ne'
+  unfold logRFull
+  rw [if_neg hc]
+  rcases (V3.normSq_nonneg v).eq_or_lt with h0 | h0
+  · rw [V3.eq_zero_of_normSq h0.symm, exp_zero_real, log_one_real]
+  · exact log_exp_real_partial v h0 hpi
+
+-- non-vacuity: the zero vector and `(1, 0, 0)` are in the ball (`1 < 4 ≤ π²`)
+example : (V3.zero : V3 ℝ).normSq < π ^ 2 := by
+  simp only [V3.normSq, V3.dot, V3.zero]; nlinarith [Real.two_le_pi]
+example : (⟨1, 0, 0⟩ : V3 ℝ).normSq < π ^ 2 := by
+  simp only [V3.normSq, V3.dot]; nlinarith [Real.two_le_pi]
 
 end real
 
